@@ -424,6 +424,23 @@ def run_routes(case):
   return routes_agree(case[0], ent[0], ent[1], ent[2])
 
 
+def gen_types(run):
+  from ..routes import struct_params
+  try:
+    T = route_table()
+  except Exception:
+    T = {}
+  for name, ent in T.items():
+    if struct_params(ent[1]):
+      yield (name,)
+
+
+def run_types(case):
+  from ..routes import struct_params, types_agree
+  ent = route_table()[case[0]]
+  return types_agree(case[0], ent[0], ent[1], ent[2], struct_params(ent[1]))
+
+
 KINDS = OrderedDict([
   ("pairs", Kind(gen_pairs, run_pair, chunk=40, rule="ordered pairs: ring ops, eq/hash, evaluation homomorphism x schemes, calculus, composition")),
   ("single", Kind(gen_single, run_single, chunk=4, rule="each polynomial: p-p, scalars, powers, routes, order/values, diff/integrate, evaluation")),
@@ -431,4 +448,6 @@ KINDS = OrderedDict([
   ("lagrange", Kind(gen_lagrange, run_lagrange, chunk=100, rule="point sets with distinct abscissae; non-trivial: >= 2 points")),
   ("call-routes", Kind(gen_routes, run_routes, chunk=1,
                        rule="each function with every documented parameter set: all positional / all keyword / every split must agree")),
+  ("param-types", Kind(gen_types, run_types, chunk=1,
+                       rule="structural integer parameters given as integral float / Fraction / bool: same result wherever the type is accepted")),
 ])
